@@ -165,8 +165,13 @@ class ProtoImporter:
             # Import all of its instance parameters to a dict
             params = import_parameters(pinst.parameters)
 
-            # First check the priviledged/ internally-defined domains
-            if ref.external.domain == "vlsir.primitives":
+            key = (ref.external.domain, ref.external.name)
+            if key in self.ext_modules:
+                # What the package itself declares is what its instances refer to, whatever the domain is called
+                target = self.ext_modules[key]
+
+            # Otherwise check the priviledged/ internally-defined domains
+            elif ref.external.domain == "vlsir.primitives":
                 # Import a VLSIR primitive to an ideal element, and convert its parameters
                 target = import_vlsir_primitive(ref.external)
                 remapped_params = import_primitive_params(target, params)
